@@ -85,6 +85,20 @@ def rejectE (c : Bool) (e : Err) : Except Err Unit := if c then .error e else .o
     (rejectE c e >>= f) = if c then .error e else f () := by
   unfold rejectE; cases c <;> rfl
 
+/-- `x` if present, else raise `e` -/
+def someOr {α} (o : Option α) (e : Err) : Except Err α :=
+  match o with
+  | some a => .ok a
+  | none => .error e
+
+theorem someOr_ok {α} {o : Option α} {e : Err} {a : α} : someOr o e = .ok a ↔ o = some a := by
+  cases o <;> simp [someOr]
+
+/-- `l[0]`, raising `e` on an empty list -/
+def headOr {α} (l : List α) (e : Err) : Except Err α := someOr l.head? e
+
+theorem headOr_ok {α} {l : List α} {e : Err} {a : α} : headOr l e = .ok a ↔ l.head? = some a := someOr_ok
+
 /-! ### big-endian numbers -/
 
 /-- `int.from_bytes(b, "big")` -/
